@@ -222,3 +222,15 @@ for FullSync<'static, ItemType, BUFFER_SIZE, MAX_STREAMS> {
         self.streams_manager.name()
     }
 }
+
+
+/// verification only: access to the streams bookkeeping of this channel
+#[cfg(feature = "verif")]
+impl<'a, ItemType:          Send + Sync + Debug + Default + 'a,
+         const BUFFER_SIZE: usize,
+         const MAX_STREAMS: usize>
+FullSync<'a, ItemType, BUFFER_SIZE, MAX_STREAMS> {
+    pub fn verif_streams_manager(&self) -> &StreamsManagerBase<MAX_STREAMS> {
+        &self.streams_manager
+    }
+}
